@@ -69,6 +69,12 @@ def run(chk, tmp, prop):
         res, hs = be.generate(tmp, f"s{j}", template, acts, cmds, modes, sels, dq if quick else dt, 0, chk.seed, systematic=True)
         chk.add_tlc(f"GrogBuildGen systematic (full build; {(dq if quick else dt) - 2} action(s); build): {label}", res, histories=len(hs))
         be.run_histories(chk, tmp, grog, hs, prop, lit, "systematic " + label)
+    if prop == "C13":
+        # the taint marker is cleared by a goroutine nobody waits for: with a slow backend Delete (modelled by a delay at the
+        # hook in front of it) the process may exit first; the specification says the successful execution consumes the taint
+        res, hs = be.generate(tmp, "gd", "chain", ["EditInput", "Build", "Taint"], ["copy", "const"], ["all"], ["ALL", "c"], 3, 0, chk.seed, systematic=True)
+        chk.add_tlc("GrogBuildGen systematic (taint, slow marker deletion)", res, histories=len(hs))
+        be.run_histories(chk, tmp, grog, hs, prop, False, "systematic taint with slow clear", opts_of=lambda i: {"workers": 2, "hash": "", "delay": "taint.clear=1200"})
     chk.assumptions += ["generated commands are deterministic functions of their declared inputs and dependency outputs",
                         "histories beyond the exhaustive depth are TLC -simulate samples (seeded)",
                         "one package, the templates chain / diamond / alias+glob / check; file, sub-directory and directory outputs"]
